@@ -157,7 +157,7 @@ func structFacts(e *env, p func(format string, args ...any)) {
 		ast.Inspect(fd.Body, func(n ast.Node) bool {
 			switch x := n.(type) {
 			case *ast.CallExpr:
-				if id, ok := x.Fun.(*ast.Ident); ok && id.Name == "mergeHeaders" && len(x.Args) == 2 && isMeta(x.Args[0]) {
+				if id, ok := x.Fun.(*ast.Ident); ok && (id.Name == "mergeHeaders" || id.Name == "mergeMetadataHeaders") && len(x.Args) == 2 && isMeta(x.Args[0]) {
 					metaUntouched = false
 				}
 				if se, ok := x.Fun.(*ast.SelectorExpr); ok && se.Sel.Name == "Meta" {
